@@ -14,7 +14,8 @@ open IpcHub.Patricia IpcHub.Sniffer IpcHub.MuxSpec IpcHub.MuxInst
 /-- The source facts the theorems rest on, regenerated from /repo on every run: the HTTP
     method table, the strings of `rtsp.MatchRTSP()`, prefix-mode matching with
     `maxDepth = max + 1`, the registration order in `service.listen` (RTSP before HTTP, each
-    matcher with its own service), the sniff time-out being set, and the call order of
+    matcher with its own service), the sniff time-out being set, the error handler of
+    `service.listen` returning `true` (Serve goes on after a connection nobody matched), and the call order of
     `Listener.serve` / `sniffer.reset` the model mirrors. -/
 theorem c19_source_facts :
     IpcHub.Gen.muxFactsUnknown = [] ∧
@@ -25,6 +26,7 @@ theorem c19_source_facts :
     IpcHub.Gen.muxRegistrations = [("rtsp.MatchRTSP()", "s.rtsp.Serve"), ("listener.MatchHTTP()", "s.http.Serve")] ∧
     IpcHub.Gen.sniffTimeoutSet = true ∧
     IpcHub.Gen.sniffTimeoutExpr = "time.Duration(int64(config.NetTimeout()) / 3)" ∧
+    IpcHub.Gen.listenErrorHandlerReturns = ["true"] ∧
     IpcHub.Gen.serveSequence =
       ["muc=newConn(c)",
        "if(m.readTimeout > noTimeout)/_=c.SetReadDeadline(time.Now().Add(m.readTimeout))",
@@ -141,9 +143,9 @@ theorem c19_route_by_prefix (s : Bytes) (evs : List Ev) (hc : cleanEvs evs) :
     outcome is exactly one of RTSP / HTTP / closed; a handed-over connection is open, its sniff
     deadline is cleared and buffered ++ undelivered is the whole original stream; a connection
     nobody gets is closed.  (Which of the services a *fragment* followed by a pause longer
-    than the sniff time-out reaches is decided by what had arrived when the time-out fired;
-    completeness — the right service for a whole request line — is `c19_classify`, for scripts
-    that only deliver data.) -/
+    than the sniff time-out reaches is decided by what had arrived when the time-out fired:
+    `c19_fragment_then_timeout`; completeness — the right service for a whole request line —
+    is `c19_classify`, for scripts that only deliver data.) -/
 theorem c19_route_sound_any_script (s : Bytes) (evs : List Ev) :
     ∃ r, genServe s evs = .ok r ∧
       (svcOfRoute r.route = .rtsp → (specials ++ rtspOnlyMethods).any (fun k => k.isPrefixOf s) = true) ∧
@@ -177,6 +179,63 @@ theorem c19_no_method_at_start_closed (s : Bytes) (evs : List Ev)
       obtain ⟨k, hk, hkp⟩ := this
       rw [h k (List.mem_append_right _ hk)] at hkp; cases hkp
   exact ⟨r, hr, hcl, h5 hcl⟩
+
+/-- `c19_fragment_then_timeout`: what happens to a client that is slower than the sniff
+    time-out, for EVERY stream: when `n` bytes (1 ≤ n ≤ 15, fewer than the RTSP matcher reads)
+    arrive and the peer then pauses until the sniff time-out fires — whatever it sends later and
+    however the socket behaves afterwards — the connection is routed by that fragment alone:
+    RTSP if the fragment starts with a `MatchRTSP` string, else HTTP if it starts with an HTTP
+    method, else closed.  (Together with `c19_route_sound_any_script`: the service then still
+    finds the whole stream.)  This is the precise content of "a client slower than the sniff
+    time-out is classified on what has arrived"; `c19_classify` speaks about scripts that only
+    deliver data. -/
+theorem c19_fragment_then_timeout (s : Bytes) (n : Nat) (hn : 1 ≤ n) (hns : n ≤ s.length) (hn15 : n ≤ 15)
+    (evs : List Ev) :
+    ∃ r, genServe s (.deliver n :: .fail .timeout :: evs) = .ok r ∧
+      svcOfRoute r.route =
+        (if (specials ++ rtspOnlyMethods).any (fun k => k.isPrefixOf (s.take n)) then Proto.rtsp
+         else if httpMethods.any (fun k => k.isPrefixOf (s.take n)) then Proto.http else Proto.none) := by
+  have hd0 : (newTree (specials ++ rtspOnlyMethods)).maxDepth = 16 := by decide
+  have hd1 : (newTree httpMethods).maxDepth = 8 := by decide
+  obtain ⟨r, hr, hroute⟩ := serve_fragment_then_timeout (newTree (specials ++ rtspOnlyMethods)) [newTree httpMethods]
+    (by intro u hu; simp only [List.mem_cons, List.mem_nil_iff, or_false] at hu; rcases hu with h | h <;> subst h <;> omega)
+    s n hn hns (by omega) evs
+  refine ⟨r, ?_, ?_⟩
+  · unfold genServe; rw [c19_registrations.2, genTrees_eq]; exact hr
+  · rw [hroute]
+    simp only [routeOf]
+    rw [matchInput_prefix _ (by decide), matchInput_prefix _ (by decide)]
+    split
+    · exact svcOfRoute_0
+    · split
+      · exact svcOfRoute_1
+      · exact svcOfRoute_closed
+
+/-- `c19_fragment_then_timeout` on literals (tests): `OPTIONS * RT` + silence reaches the HTTP
+    service (its first 7 bytes are an HTTP method) although the complete line is an RTSP
+    request; `DESCR` + silence and `OPTION` + silence are closed; `GET ` + silence reaches HTTP. -/
+theorem c19_fragment_then_timeout_examples (evs : List Ev) :
+    (∃ r, genServe (ascii "OPTIONS * RTSP/1.0\r\nCSeq: 1\r\n\r\n") (.deliver 12 :: .fail .timeout :: evs) = .ok r ∧
+        svcOfRoute r.route = .http) ∧
+    classify (ascii "OPTIONS") (ascii "*") (ascii "RTSP/1.0") = .rtsp ∧
+    (∃ r, genServe (ascii "DESCRIBE rtsp://h/ RTSP/1.0\r\n\r\n") (.deliver 5 :: .fail .timeout :: evs) = .ok r ∧
+        svcOfRoute r.route = .none) ∧
+    (∃ r, genServe (ascii "OPTIONS * RTSP/1.0\r\n\r\n") (.deliver 6 :: .fail .timeout :: evs) = .ok r ∧
+        svcOfRoute r.route = .none) ∧
+    (∃ r, genServe (ascii "GET / HTTP/1.1\r\n\r\n") (.deliver 4 :: .fail .timeout :: evs) = .ok r ∧
+        svcOfRoute r.route = .http) := by
+  refine ⟨?_, by decide, ?_, ?_, ?_⟩
+  · obtain ⟨r, hr, h⟩ := c19_fragment_then_timeout (ascii "OPTIONS * RTSP/1.0\r\nCSeq: 1\r\n\r\n") 12 (by decide) (by decide) (by decide) evs
+    exact ⟨r, hr, by rw [h]; decide⟩
+  · obtain ⟨r, hr, h⟩ := c19_fragment_then_timeout (ascii "DESCRIBE rtsp://h/ RTSP/1.0\r\n\r\n") 5 (by decide) (by decide) (by decide) evs
+    exact ⟨r, hr, by rw [h]; decide⟩
+  · obtain ⟨r, hr, h⟩ := c19_fragment_then_timeout (ascii "OPTIONS * RTSP/1.0\r\n\r\n") 6 (by decide) (by decide) (by decide) evs
+    exact ⟨r, hr, by rw [h]; decide⟩
+  · obtain ⟨r, hr, h⟩ := c19_fragment_then_timeout (ascii "GET / HTTP/1.1\r\n\r\n") 4 (by decide) (by decide) (by decide) evs
+    exact ⟨r, hr, by rw [h]; decide⟩
+
+/-- non-vacuity of `c19_fragment_then_timeout`: 12 bytes of a 31-byte stream -/
+example : (1 : Nat) ≤ 12 ∧ 12 ≤ (ascii "OPTIONS * RTSP/1.0\r\nCSeq: 1\r\n\r\n").length ∧ (12 : Nat) ≤ 15 := by decide
 
 /-- `c19_classify`: for EVERY first line `method SP target SP version` followed by CR / LF /
     nothing, with a blank-free method token that is a listed method or extends none, a
